@@ -31,7 +31,7 @@ P = {
   "Differential oracle. Segment roots are specifiers that no import loads as an asset (same-attribute proviso; a root is an attribute-less import).",
   "DESIGN.md §4 C18", TECH + "; deviation-bounded enumeration of module worlds x graph kinds x segment roots, differential oracle"),
  "C02": (True,
-  "Structured placements (9 failure kinds x 6 edge kinds x 0..3 redirect hops x sibling x local/remote) are built with the real builder and validated under all 36 walk option sets and valid(); the verdict is compared both with the verdict known by construction and with an independent reachability computation over the graph's recorded dependencies (complete enumeration). Generic worlds inside the deviation bound and all redirect-chain worlds (1-3 hops) are compared with the reachability reference; graphs that carry fast-check modules and graphs with generated WebAssembly modules (verdict known by construction) are validated under all 36 option sets.",
+  "Structured placements (9 failure kinds x 6 edge kinds x 0..3, 9 and 10 redirect hops x sibling x local/remote x an optional second import of the same specifier text as a bytes / text asset in the same module) are built with the real builder and validated under all 36 walk option sets and valid(); the verdict is compared both with the verdict known by construction and with an independent reachability computation over the graph's recorded dependencies (complete enumeration). Generic worlds inside the deviation bound and all redirect-chain worlds (1-3 hops) are compared with the reachability reference; graphs that carry fast-check modules and graphs with generated WebAssembly modules (verdict known by construction) are validated under all 36 option sets.",
   "The reachability reference reads Module::dependencies / redirects / imports through the public API. A root of unknown media type is (leniently) JavaScript and not counted as a failure; the resolution of a configured import itself is outside the statement.",
   "DESIGN.md §4 C02", TECH + "; Full enumeration of failure placements + deviation-bounded worlds, oracle = construction ground truth and reachability reference"),
  "C15": (True,
@@ -43,19 +43,19 @@ P = {
   "Differential oracle. Error entries compared without referrer. Specifiers that some import loads as an asset are not reloaded (a reload is an attribute-less load).",
   "DESIGN.md §4 C19", TECH + "; exhaustive operation histories up to a depth x deviation-bounded worlds, differential oracle against from-scratch builds"),
  "C03": (True,
-  "For four fixtures (plain, registry, registry with embedded module graphs + cache misses, npm+node) every assignment of an answer kind to the loader calls the build issues is explored up to the completed number of deviations (one fault anywhere: all; pairs/triples: per tier) with 15 answer kinds for load (+6 for registry metadata), 5 for ensure_cached and 3 npm resolver answers; every fixture re-requests settled specifiers (dynamic branch, optional second build on the same graph), the registry fixtures take prefer_cached_jsr_versions as a choice and contain unsatisfiable / yanked-only requirements; one part combines faults with EVERY completion order of the gated loader futures. Every run is checked for: no panic, the build future completes, no unfinished entry / [INTERNAL ERROR], terminal faults become error entries with a referrer, non-interference against the fault-free build.",
+  "For four fixtures (plain, registry, registry with embedded module graphs + cache misses, npm+node) every assignment of an answer kind to the loader calls the build issues is explored up to the completed number of deviations (one fault anywhere: all; pairs/triples: per tier) with 15 answer kinds for load (+6 for registry metadata), 5 for ensure_cached and 4 npm resolver answers (ok, failing one or the other of two requirements imported out of sorted order, dependency-graph error; a failed requirement must be the error entry of its own specifiers); every fixture re-requests settled specifiers (dynamic branch, optional second build on the same graph), the registry fixtures take prefer_cached_jsr_versions as a choice and contain unsatisfiable / yanked-only requirements; one part combines faults with EVERY completion order of the gated loader futures. Every run is checked for: no panic, the build future completes, no unfinished entry / [INTERNAL ERROR], terminal faults become error entries with a referrer, non-interference against the fault-free build.",
   "Faults beyond the completed deviation bound and worlds beyond the four fixtures are not covered. Registry files ignore response headers by design; files with embedded module information are not parsed.",
   "DESIGN.md §4 C03", TECH + "; deviation-bounded fault assignment over every loader call (fault enumeration), differential non-interference oracle"),
  "C04": (True,
-  "For 17 collision worlds (two with prefer_cached_jsr_versions and partly cached manifests, one with a cache-busting restart, one with pre-release and build-metadata versions of one release, one where a deferred registry content load meets an entry that a second import has turned into an error) and for every core-alphabet world x graph kind, every completion order of the gated Loader futures (and, with the queued executor, every order of polling spawned metadata tasks) and every permutation of the builder's hash-map drains, of the issue order of the cache-only probes and of the iteration order of the registry's version map is enumerated (Full; deviation-bounded for the largest), plus 0-2 extra suspensions of released futures (deviation-bounded); each run's graph observation incl. error referrers, final lockfile content and multiset of lockfile writes must equal the all-ready run.",
-  "Owns: loader completion order, executor task order, hash-map drain / issue / iteration order (4 hook sites), extra suspensions. Scenario worlds are hand-built to collide, the generated ones are complete over the core alphabet; more than ~8 simultaneously outstanding operations are not explored.",
+  "For 18 collision worlds (two with prefer_cached_jsr_versions and partly cached manifests, one with a cache-busting restart, one with pre-release and build-metadata versions of one release, one where a deferred registry content load meets an entry that a second import has turned into an error) and for every core-alphabet world x graph kind, every completion order of the gated Loader futures (and, with the queued executor, every order of polling spawned metadata tasks) and every permutation of the builder's hash-map drains, of the issue order of the cache-only probes and of the iteration order of the registry's version map is enumerated (Full; deviation-bounded for the largest), plus 0-2 extra suspensions of released futures (deviation-bounded); each run's graph observation incl. error referrers, final lockfile content and multiset of lockfile writes must equal the all-ready run. Part repeated-runs builds every collision world 32 times in one process under one schedule with the hooked sites pinned (fresh hasher keys for every map the builder creates) and requires identical results: this part samples hasher states, it is the only one that is not an enumeration.",
+  "Owns: loader completion order, executor task order, hash-map drain / issue / iteration order (4 hook sites), extra suspensions. Hash order at a site the hook does not cover can only be sampled (part repeated-runs); a divergence between two replays of one choice prefix in a later part is reported as a note next to the violation that part finds. Scenario worlds are hand-built to collide, the generated ones are complete over the core alphabet; more than ~8 simultaneously outstanding operations are not explored.",
   "DESIGN.md §4 C04", TECH + "; exhaustive enumeration of completion orders and drain permutations under a controlled scheduler"),
  "C05": (True,
   "One composite world reaches a remote module statically / dynamically / as text asset / behind a redirect / as declaration / with BOM / with invalid UTF-8, a jsr: package with a sub-path (a pre-release version), and an https URL into the registry as module and as asset. Every assignment of lockfile state x served bytes to the 12 resources (+ manifests, redirecting URL, a redirect seeded from the lockfile, embedded module graph, cache probe, stale registry metadata that forces the cache-busting restart, two versions of one package, an optional reload of one resource afterwards) inside the deviation bound is built with the real builder under a checksum-verifying loader; a monitor over the Loader and Locker call logs decides presentation, admission, retries, redirect rejection and recording.",
   "The scripted loader verifies presented checksums like a real cache. prefer_cached_jsr_versions is off. One world; assignments bounded by deviations from all-honest/empty-lockfile.",
   "DESIGN.md §4 C05", TECH + "; deviation-bounded enumeration of lockfile x tamper assignments with a call-log monitor"),
  "C01": (True,
-  "Every world inside the bound (deviation-bounded generic worlds over all entry kinds, 22 import forms, special targets, attributes, redirects, local/remote, types header; plus the complete enumeration of core-alphabet worlds with <= 3 edges) is built under 3 graph kinds x 10 option sets (all combinations of skip_dynamic_deps x is_dynamic x unstable text/bytes; custom resolver with resolve_types and default JSX import source + npm resolver + jsr passthrough + configured import; redirects seeded from the lockfile) and compared with (1) reference rules deriving each module's recorded dependencies from the renderer's record of what it wrote, (2) the least closure of the roots under the follow rules, computed over the reference dependencies, (3) the loader call log (single content load per specifier, redirects recorded), (4) entry kinds fixed by the world. Four further complete parts: worlds around redirect chains of 1-3 hops whose middle hops nothing imports; two import statements (evaluating / source-phase, static / dynamic) for one WebAssembly module against the join of the single-statement builds; template-literal dynamic imports expanded against an in-memory directory tree (18 templates x 2 importing modules x 3 graph kinds) and generated WebAssembly binaries with <= 3 imports of every import kind.",
+  "Every world inside the bound (deviation-bounded generic worlds over all entry kinds, 22 import forms, special targets, attributes, redirects, local/remote, types header; plus the complete enumeration of core-alphabet worlds with <= 3 edges) is built under 3 graph kinds x 10 option sets (all combinations of skip_dynamic_deps x is_dynamic x unstable text/bytes; custom resolver with resolve_types and default JSX import source + npm resolver + jsr passthrough + configured import; redirects seeded from the lockfile) and compared with (1) reference rules deriving each module's recorded dependencies from the renderer's record of what it wrote, (2) the least closure of the roots under the follow rules, computed over the reference dependencies, (3) the loader call log (single content load per specifier, redirects recorded), (4) entry kinds fixed by the world. Five further complete parts: worlds around redirect chains of 1-3 hops whose middle hops nothing imports (head imported statically / dynamically / type-only / as the types dependency of a JavaScript root); import attribute types (none / json / text / bytes / css / yaml / jsonc / unknown) x 5 import forms x 9 target kinds x a resolver whose attribute hook claims the config types, each under all 16 combinations of unstable_text / bytes / css / config imports, against a reference table plus the rule that options unrelated to the attribute type change nothing; two import statements (evaluating / source-phase, static / dynamic) for one WebAssembly module, named directly or through a redirect, against the join of the single-statement builds; template-literal dynamic imports expanded against an in-memory directory tree (18 templates x 2 importing modules x 3 graph kinds) and generated WebAssembly binaries with <= 3 imports of every import kind.",
   "The reference rules (about 25, each mirroring a sentence of the statement and anchored in graph.rs) are part of the trusted base. Worlds outside the same-attribute proviso are not generated; redirect cycles are C14's.",
   "DESIGN.md §4 C01", TECH + "; deviation-bounded + complete core enumeration of module worlds against a reference model of declared dependencies and closure"),
  "C08": (True,
@@ -67,11 +67,11 @@ P = {
   "Premise of the statement: the embedded information is produced by this analyser from those sources (the fixture does exactly that).",
   "DESIGN.md §4 C13", TECH + "; enumeration of values / programs / packages, round-trip and differential oracles"),
  "C07": (True,
-  "Registries of 2 packages x 2 versions (5 exports shapes, per-file import lists over relative / jsr: / npm: / https-into-registry / self / unknown-export forms) and importing programs of <= 3 imports - optionally built in two steps on one graph, with lockfile-seeded selections, or with passthrough_jsr_specifiers - are built with the real builder inside the deviation bound; redirects, mappings, exports used, package dependency edges and unknown-export errors are compared with a reference recomputed from the fixture; package URL <-> name@version is round-tripped for every file and probed with near-miss URLs; a complete part (url-mapping) enumerates every URL from 2 schemes x 9 look-alike authorities x paths of <= 4 segments over 9 segment texts and compares package_url_to_nv with an origin + path-segment reference, and the round trip through package_url.",
+  "Registries of 2 packages x 2 versions (5 exports shapes, per-file import lists over relative / jsr: / npm: / https-into-registry / self / unknown-export forms, and equal requirements under other spellings: `@^1` next to `@1`, `jsr:/@s/a`) and importing programs of <= 3 imports - optionally built in two steps on one graph, with lockfile-seeded selections, or with passthrough_jsr_specifiers - are built with the real builder inside the deviation bound; redirects, mappings, exports used, package dependency edges and unknown-export errors are compared with a reference recomputed from the fixture; package URL <-> name@version is round-tripped for every file and probed with near-miss URLs; a complete part (url-mapping) enumerates every URL from 2 schemes x 9 look-alike authorities x paths of <= 4 segments over 9 segment texts and compares package_url_to_nv with an origin + path-segment reference, and the round trip through package_url.",
   "Every requirement of the alphabet matches exactly one published version (selection order is C06's subject). Default JsrUrlProvider only.",
   "DESIGN.md §4 C07", TECH + "; deviation-bounded enumeration of registries x importing programs against reference bookkeeping"),
  "C09": (True,
-  "Every generated package inside the deviation bound (3 declaration slots x ~125 templates (the first slot all of them, the later slots ~80) x 23 reference forms, nested export-* barrels, 7 helper-module variants, 3 entrypoint sets, registry package or workspace member, one or two build + fast-check steps on one graph) and every package of the fast-check spec corpus goes through the real fast-check transform; each emitted module is re-parsed with scope analysis and checked for dangling references, imports of names the emitted counterpart does not export, unresolvable relative specifiers and source-map well-formedness / identifier fidelity.",
+  "Every generated package inside the deviation bound (3 declaration slots x ~137 templates (the first slot all of them, the later slots ~80) x 23 reference forms, nested export-* barrels, 7 helper-module variants, 3 entrypoint sets, registry package or workspace member, one or two build + fast-check steps on one graph) and every package of the fast-check spec corpus goes through the real fast-check transform; each emitted module is re-parsed with scope analysis and checked for dangling references, imports of names the emitted counterpart does not export, unresolvable relative specifiers and source-map well-formedness / identifier fidelity.",
   "Emitted text is re-parsed with the same swc parser the subject uses (common-mode risk); export / signature / unresolved-identifier extractors and the VLQ source-map decoder are the harness's own. Packages that get diagnostics instead of output are only counted.",
   "DESIGN.md §4 C09-C11", TECH + "; deviation-bounded enumeration of generated packages + full corpus, closure oracle on the re-parsed output"),
  "C10": (True,
@@ -84,7 +84,7 @@ P = {
   "DESIGN.md §4 C09-C11", TECH + "; deviation-bounded enumeration of generated packages + full corpus, relational API-preservation oracle"),
  "C12": (True,
   "All operation histories up to depth 4 (quick) / 5 (thorough) over a three-package world (two packages leading to a third; editable root program; first package as registry package or workspace member) with 2-4 source variants per module are replayed against the real fast-check transform with one shared cache (cold, warm, stale entries arise along the history); after each operation all-or-nothing per package is checked with and without the cache, recorded dependencies of every emitted module are compared with a re-analysis of the emitted text, the with-cache result is compared with the cache-less one, two cache-less runs are compared, and a second pass over the same graph object must change nothing.",
-  "One hand-built world (7 modules, 20 variants); fast_check_dts is outside it. Each operation rebuilds the graph from the current sources.",
+  "One hand-built world (7 modules, 21 variants, one of them importing the dependency package without exposing it); fast_check_dts is outside it. Each operation rebuilds the graph from the current sources.",
   "DESIGN.md §4 C12", TECH + "; exhaustive operation histories over source variants with a shared cache, differential oracle against cache-less runs"),
  "C16": (True,
   "ALL star re-export graphs over 3 (quick) / 4 (thorough) modules x own-export assignments are built and the resolved export set of every module is compared with the least fixpoint the ES rules define (own names first, default never re-exported by star, cycles terminate under the watchdog); the symbol tables of the generated C09 packages (incl. dotted namespaces, merged declarations, overloads, expando, class members) and of the symbol spec corpus are checked to be trees consistent with their parent pointers, with sound declaration names / ranges / ids, and go-to-definition is run from every symbol. A complete, process-isolated part enumerates all 1 000 re-export graphs over 3 modules that mix named re-exports (direct and through an import) with export-star, cycles included: exported names against the ES rules, go-to-definition from every symbol and every export must return (a stack overflow of the child process is a violation).",
